@@ -767,3 +767,55 @@ pub fn pick(i: u16, len: usize) -> usize {
 pub fn new_tree_value<S: Strategy>(s: &S, runner: &mut TestRunner) -> S::Value {
     s.new_tree(runner).unwrap().current()
 }
+
+// ---------------------------------------------------------------------------
+// Coverage-guided tier: libFuzzer bytes -> proptest strategy (PassThrough rng)
+// -> the same interpreter + oracle as the random tier.
+
+thread_local! {
+    static FUZZ_FINDINGS: RefCell<Option<Vec<Finding>>> = const { RefCell::new(None) };
+}
+
+/// Decode `data` through `strat` (the fuzzer's bytes are the generator's random
+/// stream, so the input is always structurally valid), run it, and return the
+/// scenario and failure if the oracle failed with a signature that is not a
+/// listed known finding of `prop`.
+pub fn fuzz_one<S>(prop: &str, strat: &BoxedStrategy<S>, run: &(dyn Fn(&S) -> Outcome + Sync), data: &[u8]) -> Option<(S, Failure)>
+where
+    S: Serialize + std::fmt::Debug + Clone + 'static,
+{
+    if data.is_empty() {
+        return None;
+    }
+    let rng = TestRng::from_seed(RngAlgorithm::PassThrough, data);
+    let config = Config { cases: 1, failure_persistence: None, ..Config::default() };
+    let mut runner = TestRunner::new_with_rng(config, rng);
+    let tree = strat.new_tree(&mut runner).ok()?;
+    let s = tree.current();
+    let o = guarded(run, &s);
+    let f = o.failure?;
+    let known = FUZZ_FINDINGS.with(|k| {
+        let mut g = k.borrow_mut();
+        let v = g.get_or_insert_with(load_findings);
+        v.iter().any(|x| x.property == prop && x.status == "known" && x.signatures.iter().any(|sg| *sg == f.signature))
+    });
+    if known {
+        return None;
+    }
+    Some((s, f))
+}
+
+/// Called by the fuzz targets: on a failure write a replay file, print the
+/// VIOLATION line and panic so that libFuzzer keeps the input.
+pub fn fuzz_report<S: Serialize>(prop: &str, sub: &str, found: Option<(S, Failure)>) {
+    let Some((s, f)) = found else { return };
+    let dir = verif_root().join("replays").join(prop).join("found");
+    let _ = std::fs::create_dir_all(&dir);
+    let body = json!({"property": prop, "sub": sub, "tier": "thorough", "seed": 0, "failure": f, "scenario": s});
+    let h = hash_json(&body["scenario"]);
+    let path = dir.join(format!("fuzz-{sub}-{h:016x}.json"));
+    let _ = std::fs::write(&path, serde_json::to_string_pretty(&body).unwrap());
+    println!("VIOLATION property={prop} replay={} sub={sub} signature={:?}", path.display(), f.signature);
+    println!("  detail: {}", f.detail.chars().take(2000).collect::<String>());
+    panic!("oracle failed: {}", f.signature);
+}
